@@ -194,7 +194,16 @@ func (in *Interp) vf(fn *ssa.Function, args []Value) Value {
 	case "vfAllocBytes":
 		s := IX(0)
 		for _, a := range in.allocs {
-			s = IArith("+", s, a)
+			s = IArith("+", s, a.bytes)
+		}
+		return s
+	case "vfAllocBytesIn":
+		// bytes allocated by make/append inside functions whose name ends with the given suffix
+		s := IX(0)
+		for _, a := range in.allocs {
+			if strings.HasSuffix(a.fn, str(0)) {
+				s = IArith("+", s, a.bytes)
+			}
 		}
 		return s
 	case "vfDeepEqual":
